@@ -236,9 +236,10 @@ func (c *Ctx) onPanic(entry string, describe func() string, v any) {
 }
 
 var (
-	reHex = regexp.MustCompile(`0x[0-9a-fA-F]+`)
-	reNum = regexp.MustCompile(`\b-?[0-9]+\b`)
-	reWS  = regexp.MustCompile(`[^A-Za-z0-9_.:*\[\]()<>=+/-]+`)
+	reType = regexp.MustCompile(`\b(of|to) type [^ ]+( {[^}]*})?`)
+	reHex  = regexp.MustCompile(`0x[0-9a-fA-F]+`)
+	reNum  = regexp.MustCompile(`\b-?[0-9]+\b`)
+	reWS   = regexp.MustCompile(`[^A-Za-z0-9_.:*\[\]()<>=+/-]+`)
 )
 
 // Class maps a panic text to a class that does not contain varying data.
@@ -263,6 +264,7 @@ func Class(text string) string {
 	if i := strings.IndexByte(t, '\n'); i >= 0 {
 		t = t[:i]
 	}
+	t = reType.ReplaceAllString(t, "$1 type T") // Go type expressions are varying data
 	t = reHex.ReplaceAllString(t, "X")
 	t = reNum.ReplaceAllString(t, "N")
 	t = reWS.ReplaceAllString(t, "_")
